@@ -29,7 +29,7 @@ import (
 // Environment (on top of the go-elements model of validate_c01_liquid.go, which supplies the
 // symbolic opening transaction, unblinding of its outputs and the address <-> script table):
 //   - wallet.Wallet is vSpLqWallet: GetAddress returns a confidential p2wpkh address of the node
-//     (blech32 of (blinding pubkey, 20-byte program)); GetFee returns an arbitrary uint64 or an
+//     (blech32 of (blinding pubkey, 20-byte program)); GetFee returns an arbitrary amount <= 21e14 sat or an
 //     error; SendRawTx records the hex.
 //   - swap.Signer is vSpLqSigner: records the hash, returns a signature object (natively a real
 //     ECDSA signature).
@@ -78,6 +78,8 @@ func (w *vSpLqWallet) GetFee(txSize int64) (uint64, error) {
 	w.feeSize = txSize
 	w.feeErr = zzverif.Bool("wallet.fee_err")
 	w.fee = zzverif.U64("wallet.fee")
+	// ASSUMPTION: a fee estimate is an amount of satoshi, at most the total supply
+	zzverif.Assume(w.fee <= 2100000000000000)
 	if w.feeErr {
 		return 0, errors.New("wallet: fee estimation failed")
 	}
@@ -175,6 +177,11 @@ func vSpLqNonceHash(pub, priv []byte) ([32]byte, error) {
 	return h, nil
 }
 func vSpLqRangeProof(a confidential.RangeProofArgs) ([]byte, error) {
+	// library contract (secp256k1-zkp rangeproof_sign, checked natively): values above
+	// INT64_MAX cannot be proven
+	if a.Value >= 1<<63 {
+		return nil, errors.New("failed to create a range proof")
+	}
 	p := []byte(zzverif.UFStr("rangeproof", a.Value, a.Nonce, a.Asset, a.AssetBlindingFactor, a.ValueBlindFactor, a.ValueCommit, a.ScriptPubkey, a.Exp, a.MinBits))
 	vSpL.ranges = append(vSpL.ranges, vSpLqRange{a, p})
 	return p, nil
@@ -200,10 +207,16 @@ func vSpLqSigHash(tx *transaction.Transaction, idx int, script []byte, value []b
 }
 func vSpLqToHex(tx *transaction.Transaction) (string, error) {
 	h := zzverif.UFStr("lqtxhex", tx)
+	// serialisation is injective: the new transaction (it has an input the opening transaction
+	// does not have) never serialises to the opening transaction's hex
+	zzverif.Assume(h != vLqTxHex)
 	vSpL.hexes = append(vSpL.hexes, vSpLqHex{h, tx})
 	return h, nil
 }
 func vSpLqNewTxFromHex(s string) (*transaction.Transaction, error) {
+	if s == vLqTxHex {
+		return vLqNewTxFromHex(s)
+	}
 	for i := len(vSpL.hexes) - 1; i >= 0; i-- {
 		if vSpL.hexes[i].hex == s {
 			return vSpL.hexes[i].tx, nil
@@ -335,28 +348,33 @@ func (w *vSpLqWallet) makeAddress() {
 	w.addr = a
 }
 
+// vSpLqKey: signing key of a Signer stub (only used natively).
 func vSpLqKey(b byte) *btcec.PrivateKey {
+	if zzverif.Symbolic() {
+		return nil
+	}
 	k, _ := btcec.PrivKeyFromBytes(bytes.Repeat([]byte{b}, 32))
 	return k
 }
 
-// vSpLqParams: like vLqDrawParams (arbitrary amount, blinding key, CSV 60 or 10080) but with FIXED
+// vSpLqParams: like vLqDrawParams (arbitrary amount, blinding key; CSV 10080, or 60/10080 when
+// bothCsv) but with FIXED
 // maker/taker keys and payment hash: how the script depends on them is C02's subject, the
 // structure of the spending transaction does not depend on them, and symbolic hex strings make
 // every string-solver query of these entries 10-100 times slower.
-func vSpLqParams() *swap.OpeningParams {
-	csv := uint32(LiquidCsv)
-	if zzverif.Bool("csv_10080") {
-		csv = 10080
+func vSpLqParams(bothCsv bool) *swap.OpeningParams {
+	csv := uint32(10080)
+	if bothCsv && zzverif.Bool("csv_legacy_60") {
+		csv = LiquidCsv
 	}
 	kb := zzverif.Bytes("blinding_key", 32)
 	zzverif.Assume(!bytes.Equal(kb, make([]byte, 32)))
 	key, _ := btcec.PrivKeyFromBytes(kb)
 	vLqKey = key.Serialize()
 	return &swap.OpeningParams{
-		TakerPubkey:      "02" + hex.EncodeToString(bytes.Repeat([]byte{0x21}, 32)),
-		MakerPubkey:      "03" + hex.EncodeToString(bytes.Repeat([]byte{0x42}, 32)),
-		ClaimPaymentHash: hex.EncodeToString(bytes.Repeat([]byte{0x63}, 32)),
+		TakerPubkey:      "022121212121212121212121212121212121212121212121212121212121212121",
+		MakerPubkey:      "034242424242424242424242424242424242424242424242424242424242424242",
+		ClaimPaymentHash: "6363636363636363636363636363636363636363636363636363636363636363",
 		Amount:           zzverif.U64("amount"),
 		CSV:              csv,
 		BlindingKey:      key,
@@ -365,15 +383,21 @@ func vSpLqParams() *swap.OpeningParams {
 
 // vSpLqSpend runs one Create*SpendingTransaction of the real LiquidOnChain on an opening
 // transaction that the real ValidateTx accepts and checks the transaction handed to SendRawTx.
-func vSpLqSpend(kind int, maxOut int) {
+func vSpLqSpend(kind int, maxOut int, bothCsv bool) {
 	zzverif.Unwind(16)
 	vLqReset()
 	w := vSpLqNewWallet()
 	vSpLqInstall(w)
 	lw := vLqNewChainWith(w)
 	w.makeAddress()
-	p := vSpLqParams()
+	p := vSpLqParams(bothCsv)
 	redeem, expected := vLqExpectedScript(p)
+	if zzverif.Symbolic() {
+		// address coding is injective: the wallet's blech32 p2wpkh address is not the bech32 p2wsh
+		// opening address (different prefix, length and payload)
+		oa, _ := lw.CreateOpeningAddress(redeem)
+		zzverif.Assume(oa != w.addr)
+	}
 	openHex := vLqDrawTx(p, expected, maxOut)
 
 	// Precondition of C03: the opening transaction is one the validator accepts.  By C01
@@ -429,9 +453,11 @@ func vSpLqSpend(kind int, maxOut int) {
 		return
 	}
 	if fee > p.Amount {
-		// liquid.go:283 `ubRes.Value - preparedFee` wraps: see H_C03_liquidValueRange.  Nothing
-		// checks it; the transaction commits to a value near 2^64 and cannot balance.
+		// liquid.go:283 `ubRes.Value - preparedFee` wraps (H_C03_liquidValueRange) and nothing in
+		// peerswap checks it; the wrapped value is >= 2^64 - 2.1e15 > INT64_MAX, for which the
+		// library cannot create a range proof, so the builder fails before anything is signed/sent
 		zzverif.Reach("C03.lq_fee_exceeds_amount_value_wraps")
+		zzverif.Assert(err != nil && len(w.sent) == 0 && len(signer.hashes) == 0, "C03.lq_wrapped_value_refused_by_range_proof")
 		return
 	}
 	zzverif.Assert(err == nil, "C03.lq_no_error")
@@ -543,20 +569,21 @@ func vLqNewChainWith(w *vSpLqWallet) *LiquidOnChain {
 }
 
 // H_C03_liquid{Preimage,Csv,Coop}Spend: for every opening transaction the real ValidateTx accepts
-// (1..2 outputs quick, 1..3 thorough; explicit or confidential swap output), every wallet fee
-// answer (error => 500 sat placeholder, 0 => refused) with fee <= amount: exactly one
-// transaction is sent; version 2, locktime 0, one input spending (TxHash(opening), first output
-// with the swap script = the output ValidateTx checked) with empty scriptSig and nSequence 0
-// (preimage, coop) / params.CSV (csv); output 0 pays the wallet address' script and unblinds
-// with the wallet key to (policy asset, amount - fee); output 1 is the explicit fee output;
-// the signer(s) signed HashForWitnessV0(0, redeem script, spent value commitment, SIGHASH_ALL);
-// the witness is the one built by Get{Preimage,Csv,Cooperative}Witness with the claim preimage.
-func H_C03_liquidPreimageSpend()   { vSpLqSpend(vSpPreimage, 2) }
-func H_C03_liquidCsvSpend()        { vSpLqSpend(vSpCsv, 2) }
-func H_C03_liquidCoopSpend()       { vSpLqSpend(vSpCoop, 2) }
-func H_C03_T_liquidPreimageSpend() { vSpLqSpend(vSpPreimage, 3) }
-func H_C03_T_liquidCsvSpend()      { vSpLqSpend(vSpCsv, 3) }
-func H_C03_T_liquidCoopSpend()     { vSpLqSpend(vSpCoop, 3) }
+// (quick: 1 output, CSV 10080 — the csv entry also 60; thorough: 1..3 outputs, swap output at any
+// position, both CSV values; swap output explicit or confidential), every wallet fee answer
+// (error => 500 sat placeholder, 0 => refused) with fee <= amount: exactly one transaction is
+// sent; version 2, locktime 0, one input spending (TxHash(opening), first output with the swap
+// script = the output ValidateTx checked) with empty scriptSig and nSequence 0 (preimage, coop)
+// / params.CSV (csv); output 0 pays the wallet address' script and unblinds with the wallet key
+// to (policy asset, amount - fee); output 1 is the explicit fee output; the signer(s) signed
+// HashForWitnessV0(0, redeem script, spent value commitment, SIGHASH_ALL); the witness is the one
+// built by Get{Preimage,Csv,Cooperative}Witness with the claim preimage.
+func H_C03_liquidPreimageSpend()   { vSpLqSpend(vSpPreimage, 1, false) }
+func H_C03_liquidCsvSpend()        { vSpLqSpend(vSpCsv, 1, true) }
+func H_C03_liquidCoopSpend()       { vSpLqSpend(vSpCoop, 1, false) }
+func H_C03_T_liquidPreimageSpend() { vSpLqSpend(vSpPreimage, 3, true) }
+func H_C03_T_liquidCsvSpend()      { vSpLqSpend(vSpCsv, 3, true) }
+func H_C03_T_liquidCoopSpend()     { vSpLqSpend(vSpCoop, 3, true) }
 
 // H_C03_liquidValueRange: arithmetic of liquid.go:283 `outputValue := ubRes.Value - preparedFee`
 // (uint64): no wrap iff fee <= value; for fee > value the committed value is 2^64 - (fee-value).
